@@ -189,6 +189,8 @@ impl Janitor {
     }
 
     let expired_set: HashSet<u64> = expired_hashes.into_iter().collect();
+    #[cfg(excsn_fibre_verif)]
+    crate::verif_sched::point("ttl:before_map_write");
     let mut guard = shard.map.write();
 
     guard.retain(|key, entry| {
@@ -278,15 +280,21 @@ impl Janitor {
     V: Send + Sync,
     H: BuildHasher + Clone + Send + Sync,
   {
+    #[cfg(excsn_fibre_verif)]
+    crate::verif_sched::point("cap:before_cost_load");
     let current_cost = context.metrics.current_cost.load(Ordering::Relaxed);
     if current_cost <= context.capacity {
       return;
     }
     let cost_to_free = current_cost - context.capacity;
+    #[cfg(excsn_fibre_verif)]
+    crate::verif_sched::point("cap:before_policy_evict");
     let (victims, cost_released) = context.cache_policy[shard_index].evict(cost_to_free);
     if victims.is_empty() {
       return;
     }
+    #[cfg(excsn_fibre_verif)]
+    crate::verif_sched::point("cap:before_map_write");
     {
       let mut guard = shard.map.write();
       for key in &victims {
@@ -297,6 +305,8 @@ impl Janitor {
         }
       }
     }
+    #[cfg(excsn_fibre_verif)]
+    crate::verif_sched::point("cap:before_cost_sub");
     context
       .metrics
       .evicted_by_capacity
@@ -354,6 +364,8 @@ pub(crate) fn perform_shard_maintenance<K, V, H>(
   // 1. Collect this pass's write events.
   let mut writes: Vec<(K, u64)> = Vec::new();
   for _ in 0..drain_limit {
+    #[cfg(excsn_fibre_verif)]
+    crate::verif_sched::point("maint:before_event_recv");
     match shard.event_buffer_rx.try_recv() {
       Ok(AccessEvent::Write(key, cost)) => writes.push((key, cost)),
       Err(_) => break,
@@ -377,6 +389,8 @@ pub(crate) fn perform_shard_maintenance<K, V, H>(
 
   // 3. Apply the writes.
   for (key, cost) in writes {
+    #[cfg(excsn_fibre_verif)]
+    crate::verif_sched::point("maint:before_admit");
     let decision = policy.on_admit(&key, cost);
 
     if let AdmissionDecision::AdmitAndEvict(victims) = decision {
@@ -384,6 +398,8 @@ pub(crate) fn perform_shard_maintenance<K, V, H>(
       let mut total_cost_released = 0;
 
       for victim_key in victims {
+        #[cfg(excsn_fibre_verif)]
+        crate::verif_sched::point("maint:before_victim_lock");
         // The victim could be in another shard, so we must look it up.
         let victim_shard_index = context.store.get_shard_index(&victim_key);
         let victim_shard = &context.store.shards[victim_shard_index];
@@ -411,6 +427,8 @@ pub(crate) fn perform_shard_maintenance<K, V, H>(
         }
       }
 
+      #[cfg(excsn_fibre_verif)]
+      crate::verif_sched::point("maint:before_evict_cost_sub");
       context
         .metrics
         .current_cost
@@ -418,6 +436,8 @@ pub(crate) fn perform_shard_maintenance<K, V, H>(
 
       if let Some(sender) = &context.notification_sender {
         for notif in notifications_to_send {
+          #[cfg(excsn_fibre_verif)]
+          crate::verif_sched::point("maint:before_evict_notify");
           let _ = sender.try_send(notif);
         }
       }
